@@ -843,3 +843,13 @@ def replace_converts(u: Unit):
             u.oblige(p, f"replace.converts[{label}].one_set_per_request_on_the_copy", bool(ok and on_copy), {"sets": len(sets)}, REPLACE_CONV_REPLAY)
             u.oblige(p, f"replace.converts[{label}].conversion_left_on", bool(conv_on), {"convert_value": str([str(s_[2].get("convert_value")) for s_ in sets])}, REPLACE_CONV_REPLAY)
         u.cover(f"replace.converts.cover[{label}]", ps, lambda p: p.kind == "return")
+
+
+def _validated_before_runs(u: Unit):
+    """C05.run_one_per_entry (imported late): Observation.run_pipelines calls validate_steps on the caller's processor before the first run on
+    the sequential AND on the parallel branch -- 'rejected before any pipeline runs' for unknown keys and for arguments of disabled models."""
+    from . import C05 as _C05v
+    return _C05v.run_one_per_entry(u)
+
+
+unit("C08", "validate.before_runs")(_validated_before_runs)
